@@ -54,7 +54,7 @@ def run(c):
             c.violate("unify on a hole-free pair: " + what[:200], {"kind": "trace-unify", "tag": "C06", "what": what[:300], "pair_kind": ev.get("kind"), "a": ev.get("a"), "b": ev.get("b"), "swap": ev.get("swap")})
     # (i) beyond the enumerated bound: generated programs of ground type (type-directed, recursion, big operands, corpus)
     n = 1 if c.quick else 15
-    evg = pc.generated(c, "C06", [("corpus", 0), ("typed", 300 * n, 3), ("recursion", 60 * n, 8), ("bigint", 80 * n), ("deforder", 100 * n), ("groups", 100 * n)], fuel=2000)
+    evg = pc.generated(c, "C06", [("corpus", 0), ("typed", 300 * n, 3), ("recursion", 60 * n, 8), ("bigint", 80 * n), ("deforder", 100 * n), ("groups", 100 * n), ("chains", 150 * n)], fuel=2000)
     pc.validate(c, "C06", [evg], "whnf-vs-eval")
     lines = open(tr).read().splitlines()
     ev = json.loads(next(l for l in lines if '"kind":"conv-no"' in l))
